@@ -1848,7 +1848,7 @@ fn try_bitpacking(
                 max
             };
             order_preserving = order_preserving && plan_type.is_order_preserving();
-            let mut adjusted_query_plan = if query_plan.is_nullable() {
+            let adjusted_query_plan = if query_plan.is_nullable() {
                 let fused = planner.fuse_int_nulls(-min + 1, query_plan);
                 if fused.tag != EncodingType::I64 {
                     planner.cast(fused, EncodingType::I64).i64()?
@@ -1863,14 +1863,14 @@ fn try_bitpacking(
                     .constant_expand(0, partition_len, EncodingType::I64)
                     .i64()?;
                 info!("EMITTING NULL CONSTANT EXPAND {:?}", x);
-                x
+                // every other plan was already filtered by `compile_expr`, only this constant still has the partition's length
+                filter
+                    .apply_filter(planner, x.into())
+                    .i64()
+                    .expect("source type should be i64")
             } else {
                 planner.cast(query_plan, EncodingType::I64).i64()?
             };
-            adjusted_query_plan = filter
-                .apply_filter(planner, adjusted_query_plan.into())
-                .i64()
-                .expect("source type should be i64");
 
             if total_width == 0 {
                 plan = Some(adjusted_query_plan);
